@@ -395,6 +395,60 @@ pub fn emit_pair(em: &mut Emitter, server: &Server<Cat>, payload: u16, cat: &str
     }
 }
 
+/// RRsets with more RDATA names than a `HintPointerVec` holds (16), whose late targets share labels,
+/// with address RRsets of varying size: near the UDP limit an optional additional RRset is rolled
+/// back and a later, hint-less owner is compressed heuristically (C02/C13: rollback of the writer's
+/// compression anchors).
+pub fn gen_hint_overflow_zone(rng: &mut Rng) -> ZoneCfg {
+    let apex = lname(&[b"ex", b"test"]);
+    let mut recs = Vec::new();
+    let mut soa = under(rng, &apex, 1); soa.extend(under(rng, &apex, 1));
+    for x in [1u32, 2, 3, 4, 60] { soa.extend_from_slice(&x.to_be_bytes()); }
+    recs.push(Rec { owner: apex.clone(), ty: 6, ttl: 300, rdata: soa });
+    let ty = *rng.pick(&[15u16, 15, 2, 33]);
+    let n_plain = rng.range(14, 19);
+    let mk = |labels: &[&[u8]], apex: &[u8]| -> Vec<u8> { let mut w = Vec::new(); for l in labels { w.push(l.len() as u8); w.extend_from_slice(l); } w.extend_from_slice(apex); w };
+    let mut targets: Vec<Vec<u8>> = Vec::new();
+    for i in 0..n_plain { let l = format!("m{}", i); targets.push(mk(&[l.as_bytes()], &apex)); }
+    // consecutive late targets share their parent label most of the time (a rolled-back owner is then
+    // the natural compression partner of the next one)
+    let shared: [&[u8]; 3] = match rng.below(4) { 0 => [b"foo", b"bar", b"foo"], 1 => [b"foo", b"foo", b"bar"], _ => [b"foo", b"foo", b"foo"] };
+    for (i, l) in [b"x", b"y", b"z", b"v"].iter().enumerate().take(rng.range(2, 4)) {
+        targets.push(mk(&[&l[..], shared[i % 3]], &apex));
+    }
+    for (i, t) in targets.iter().enumerate() {
+        let rd: Vec<u8> = match ty {
+            15 => { let mut v = vec![0, i as u8]; v.extend(t); v }
+            33 => { let mut v = vec![0, i as u8, 0, 0, 0, 53]; v.extend(t); v }
+            _ => t.clone(),
+        };
+        recs.push(Rec { owner: apex.clone(), ty, ttl: 300, rdata: rd });
+        // the first late target often has an address RRset too big to fit (it is dropped), the
+        // following ones small ones (they fit and are compressed against what came before)
+        let n_a = if i == n_plain { rng.range(4, 24) } else if i > n_plain { if rng.chance(3, 4) { 1 } else { rng.range(1, 24) } } else { 1 };
+        for k in 0..n_a { recs.push(Rec { owner: t.clone(), ty: 1, ttl: 60, rdata: vec![10, i as u8, k as u8, rng.byte()] }); }
+        if rng.chance(1, 4) { recs.push(Rec { owner: t.clone(), ty: 28, ttl: 60, rdata: (0..16).map(|_| rng.byte()).collect() }); }
+    }
+    let mut uniq = std::collections::HashSet::new();
+    recs.retain(|r| uniq.insert((r.owner.clone(), r.ty, r.rdata.clone())));
+    ZoneCfg { kind: 'L', apex, class: 1, glue_wide: false, recs }
+}
+
+/// the queries that go with it: the big RRset, with the payload sizes around the boundaries
+pub fn gen_hint_overflow_queries(rng: &mut Rng, z: &ZoneCfg) -> Vec<Vec<u8>> {
+    let ty = z.recs.iter().map(|r| r.ty).find(|t| *t == 15 || *t == 2 || *t == 33).unwrap_or(15);
+    let mut out = Vec::new();
+    for payload in [None, Some(512u16), Some(560), Some(600), Some(700), Some(1232)] {
+        let mut body = dns::question(&z.apex, ty, 1);
+        let mut ar = 0;
+        if let Some(p) = payload { body.extend(dns::rr(&[0], 41, p, 0, &[])); ar = 1; }
+        let mut m = dns::header(rng.next() as u16, 0x0100, 1, 0, 0, ar);
+        m.extend(body);
+        out.push(m);
+    }
+    out
+}
+
 /// `srv` lines need the server model in the driver; enabled once it exists.
 pub const EMIT_SRV: bool = true;
 
@@ -433,6 +487,17 @@ pub fn gen(rng: &mut Rng, thorough: bool, em: &mut Emitter) {
             let req = gen_clean_query(rng, &zs);
             emit_pair(em, &server, payload, &cat, &req);
         }
+    }
+    // more RDATA names than hint slots + additional RRsets dropped at the limit (writer rollback)
+    let n_ho = if thorough { 400 } else { 40 };
+    for _ in 0..n_ho {
+        let z = gen_hint_overflow_zone(rng);
+        let qs = gen_hint_overflow_queries(rng, &z);
+        let zs = vec![z];
+        let payload = *rng.pick(&[512u16, 560, 1232, 4096]);
+        let Some(server) = make_server(&zs, payload) else { continue };
+        let cat = enc_catalog(&zs);
+        for q in qs { emit_pair(em, &server, payload, &cat, &q); }
     }
     // short messages: all lengths 0..=14 with counts set (C01 witnesses live here)
     let zs = gen_catalog(rng);
